@@ -349,6 +349,12 @@ func (st *clientState) exec(op Op) (r OpResult) {
 		r.Err = errStr(mgr.UpdateTag(op.Name, manager.UpdateTagOperationSetConverter(cs)))
 	case "ResetConv":
 		r.Err = errStr(mgr.ResetConverter(op.Conv))
+	case "ConvRemove":
+		r.Err = errStr(mgr.VerifConverterFileEvent("remove", op.Conv))
+	case "ConvCreate":
+		r.Err = errStr(mgr.VerifConverterFileEvent("create", op.Conv))
+	case "ConvWrite":
+		r.Err = errStr(mgr.VerifConverterFileEvent("write", op.Conv))
 	case "Status":
 		stt := mgr.Status()
 		r.Status = &stt
